@@ -81,7 +81,7 @@ def second (self : String) (t : Nat) (sid : Bytes) (holders : List String) (e : 
     let cands := nextCandidates holders ex
     let key := keyOf sid (keyTab sid (self :: holders ++ claimant.toList ++ arrivals))
     let sel := toks (sortDesc key cands)
-    let elected := bullyElected key self cands claimant
+    let elected := bullyElectedListed key self cands claimant
     if elected = self then
       match initiate key ⟨self, holders, t, ex⟩ arrivals with
       | some (_, S) => (s!"sel={sel};r=-;start={toks S};run=c:{toks S};res=ok", "retry:coordinates:announced")
@@ -107,7 +107,11 @@ def p11 (holders : List String) (k : Class String) (retryable claimantGiven : Bo
       let startOk := start == "none" || clean start
       let runOk := (items run "/").all fun r =>
         if r.startsWith "c:" then clean (r.drop 2).toString else r == "w:p1"
-      selOk && startOk && runOk && res == "ok"
+      -- the coordinator this relayer answers in the new attempt is no culprit
+      let followOk := match field impl "r" with
+        | some r => r == "-" || clean r
+        | none => false
+      selOk && startOk && runOk && followOk && res == "ok"
   | _, _, _, _ => false
 
 def handle (op : String) (args : List String) (impl : String) : Option Verdict :=
@@ -123,6 +127,7 @@ def handle (op : String) (args : List String) (impl : String) : Option Verdict :
     let some sid := fromHex sid | return bad
     let some holders := peers holders | return bad
     let some e := parseSpec spec | return bad
+    let claimant := if claimant.startsWith "!" then (claimant.drop 1).toString else claimant  -- `!` marks a culprit claimant
     let some claimant := (if claimant = "-" then some none else (peerOf claimant).map some) | return bad
     let some arrivals := peers arrivals | return bad
     match e with
